@@ -114,6 +114,10 @@ def _writes_field(e, field, op=None):
     return e['ev'] == 'assign' and sym.canon(e['lhs']) == 'this.' + field and (op is None or e['op'] == op)
 
 
+def _own_helper(a, c, t):
+    return bool(c.cls) and c.cls == a.cls and c.key != a.key and c.kind == 'method' and len(c.blocks) <= 8 and c.short != 'operator()'
+
+
 def check_checker(run, db):
     n = 0
     for f in db.find(cls_t='detail::object_leak_checker'):
@@ -123,9 +127,12 @@ def check_checker(run, db):
         if f.short in ('on_allocate', 'on_deallocate'):
             n += 1
             op = '+=' if f.short == 'on_allocate' else '-='
-            w = [e for e in evs if _writes_field(e, 'allocated_')]
-            good = len(w) == 1 and w[0]['op'] == op and sym.canon(w[0]['rhs'], {0: 'size'}) in ('$size', '(long)$size') \
-                and flow.must_pass_through(f, lambda e: e is w[0])
+            # by effect: on every returning path the count ends at its old value plus / minus the size, whatever the spelling
+            from engine import linear
+            S = [x for x in fwd.summarize(f, db=db, roles={0: 'size'}, no_forward=True, inline_pred=_own_helper) if x.end == 'return']
+            want = {'this.allocated_': 1, '$size': 1 if op == '+=' else -1}
+            good = bool(S) and all('this.allocated_' in x.fields and linear.lin(x.fields['this.allocated_'], {0: 'size'}) == want
+                                   and len([w for w in x.writes if w[0] == 'this.allocated_']) == 1 for x in S)
             if good:
                 run.ok('R-LEAKCHK', inst, f.loc, 'allocated_ %s size' % op)
             else:
@@ -152,10 +159,12 @@ def check_checker(run, db):
                 run.ok('R-LEAKCHK', inst, f.loc, 'handler(allocated_) iff allocated_ != 0, once')
         elif f.kind in ('move-ctor', 'move-assign'):
             n += 1
-            took = any((e['ev'] == 'init' and e.get('field') == 'allocated_' and sym.canon(e['e'], {0: 'other'}) == '$other.allocated_')
-                       or (_writes_field(e, 'allocated_', '=') and sym.canon(e['rhs'], {0: 'other'}) == '$other.allocated_') for e in evs)
-            zeroed = [e for e in evs if e['ev'] == 'assign' and sym.canon(e['lhs'], {0: 'other'}) == '$other.allocated_' and sym.canon(e['rhs']) == '0']
-            if took and zeroed and flow.must_pass_through(f, lambda e: e in zeroed):
+            # by effect, helpers of the class inlined: the count ends at the source's old count, the source's count at zero
+            S = [x for x in fwd.summarize(f, db=db, roles={0: 'other'}, no_forward=True, inline_pred=_own_helper) if x.end == 'return']
+            took = bool(S) and all(sym.canon(x.fields.get('this.allocated_') or {}, {0: 'other'}) == '$other.allocated_'
+                                   or any(w[0] == 'this.allocated_' and w[1] == '$other.allocated_' for w in x.writes) for x in S)
+            zeroed = bool(S) and all(sym.canon(x.fields.get('$other.allocated_') or {}, {0: 'other'}) == '0' for x in S)
+            if took and zeroed:
                 run.ok('R-LEAKCHK', inst, f.loc, 'count moves with the object, source zeroed')
             else:
                 run.violation('R-LEAKCHK', inst, f.loc, 'move does not transfer the count and zero the source (took=%s, zeroed=%s)' % (took, bool(zeroed)), site=site)
